@@ -24,13 +24,14 @@ def run():
     res.add_tlc(f"Validation: every AHB <= {n} nodes over 8 labels (deeper nesting, several roots, siblings)", t4)
     V.replay_dump("C13", dump4, res, stride=(40 if thorough else 10))
     dump4.unlink()
-    V.trace_validation(res, work, 2000 if thorough else 250)
+    V.trace_validation(res, work, 2000 if thorough else 250, wide=((17, 31, 32, 33, 50, 63, 64, 65, 100, 129, 257) if thorough else (33, 65, 100)))
     res.coverage["exhaustive"] = True
     res.coverage["rule"] = ("one case = (AHB tree, soll flag): every tree <= 3 nodes with every label (indicator x outcome or INVALID) on every node, "
                             f"and a seeded 1/{40 if thorough else 10} sample of all trees <= {n} nodes over 8 labels; each is rendered with seeded expressions "
                             "(spellings, packages, hints, several modal marks) and validated with both flag values; the full result list "
                             "(nodes, order, status, FILLED/EMPTY) must equal the documented walk; plus real results for random AHBs of 5-30 nodes decided by TLC "
-                            "(ValidationTrace); non-trivial = at least 2 nodes")
+                            "(ValidationTrace), among them AHBs in which one node has 33 / 65 / 100 (thorough: up to 257) children; every third judged run is preceded, in the same "
+                            "task, by a validation of the same AHB under another content evaluation result; non-trivial = at least 2 nodes")
     res.assumptions += ["node labels are realised through a fixed content evaluation result (keys 1,2 fulfilled; 3,4 unfulfilled; 5,6 unknown)",
                         "for value pools only forbidden-ness and FILLED/EMPTY are judged here (DESIGN 6.6b); offered values are judged by C17"]
     return res.finish(work)
